@@ -37,6 +37,10 @@ pub fn run_search(board: &mut Board, ctx: &mut SearchContext, g: &mut MoveGenera
 /// answers of a correct cache; C01 / C02 / C10 never call this.
 pub fn use_small_generators() {
     chess::verif_hooks::set_lru_capacity(1 << 17);
+    // copy one process-wide build of the magic lookup tables instead of rebuilding them for every
+    // generator (table correctness is C11's subject and is checked without this seam)
+    chess::verif_hooks::set_share_magic_tables(true);
+    let _ = MoveGenerator::new();
 }
 
 /// Exact fixed-depth minimax value of `pos` (side `pos.stm` to move) with `depth` plies left,
